@@ -2,6 +2,8 @@ import GrinVerif.Lemmas.ChainBasic
 import GrinVerif.Lemmas.ChainExampleFacts
 import GrinVerif.Lemmas.ChainApply
 import GrinVerif.Lemmas.ChainValue
+import GrinVerif.Lemmas.ChainMoreReject
+import GrinVerif.Lemmas.ChainMoreExamples
 /-! # C01 — no value is created (value component of the balance equation, in the opening model
 of DESIGN §2.3; blinding-level faults are carried as tags and decided by the real code) -/
 namespace GV.Props.C01
@@ -78,6 +80,149 @@ theorem unspent_distinct (p : Params) (outs : List OutDef) (g : Blk) (bs : List 
   exact (replay_value p outs bs _ s hnd hr (fun b h =>
     ⟨sane_of_validateBody p outs b _ (hb b h), (validateBody_none p outs b _ (hb b h)).2.2.2.2⟩)).2
 
+/-! ## delivery histories (`deliverBlock` = `Chain::process_block`, `run` = any finite history)
+
+`Refused p n b` (`Lemmas/ChainMoreReject.lean`): the delivery of `b` to `n` returns an error and
+head, stored blocks and the reported unspent set are what they were. -/
+
+/-- **Every accepted block balances.** After any delivery history from a fresh node (forks,
+reorganisations, orphans connected later, duplicates, refused blocks), every stored block other
+than the genesis satisfies both value equations: its coinbase-flagged outputs claim exactly the
+subsidy plus its fees, and all its outputs equal all its inputs plus the subsidy; it carries no
+signature / range-proof (`body:`) and no kernel-sum (`ksum:`) fault and at least one coinbase
+kernel whenever an output is flagged. -/
+theorem accepted_blocks_balance (p : Params) (n : Node) (es : List Event) (hf : Fresh n)
+    (hreg : Registered n es) (b : Blk) (hb : n.blk b.id = some b) (h0 : b.id ≠ 0)
+    (hs : b.id ∈ (run p n es).stored) :
+    sumVals n.outs ((b.outs.filter (·.2)).map (·.1)) = p.reward + b.fees ∧
+    sumVals n.outs (b.outs.map (·.1)) = sumVals n.outs b.ins + p.reward ∧
+    hasTag b "body:" = none ∧ hasTag b "ksum:" = none ∧
+    (b.outs.any (·.2) = true → (b.kers.filter (· == .cb)).length ≠ 0) := by
+  have hi := run_preserved (preserved_inv p) n es hreg (hf.inv p)
+  have hdf := run_defs p n es
+  have hv : VOP p n b.id := (VOP_congr hdf.2 hdf.1 p b.id).mp (hi.2.valid b.id hs)
+  obtain ⟨par, s', _, _, _, hc⟩ := hv.inv hb h0
+  obtain ⟨_, _, hvb, _⟩ := checkBlock_ok p n b par s' hc
+  obtain ⟨h1, h2⟩ := block_valid_balances p n.outs b _ hvb
+  obtain ⟨t1, _, _, _, _, hcm, _, t2⟩ := (validateBody_none_iff p n.outs b _).mp hvb
+  refine ⟨h1, h2, t1, t2, ?_⟩
+  intro hany hlen
+  unfold coinbaseMismatch at hcm
+  simp only [Bool.or_eq_false_iff, Bool.and_eq_false_iff, decide_eq_false_iff_not] at hcm
+  rcases hcm.2 with h | h
+  · exact h hlen
+  · rw [hany] at h; cases h
+
+/-- **State equation on every reachable head.** From a fresh node whose genesis outputs are
+distinct and worth one subsidy: after any delivery history the unspent outputs of the head's
+state — the state the node reports — are worth exactly `(number of blocks above the genesis + 1) ×
+reward`, i.e. `(head height + 1) × reward` with the genesis at height 0: no history of forks and
+reorganisations creates or destroys value. -/
+theorem head_state_equation (p : Params) (n : Node) (es : List Event) (hf : Fresh n)
+    (hreg : Registered n es) (g : Blk) (hg : n.blk 0 = some g) (hgo : (g.outs.map (·.1)).Nodup)
+    (hgv : sumVals n.outs (g.outs.map (·.1)) = p.reward) :
+    ∃ rest s, (run p n es).path (run p n es).head = some (g :: rest) ∧
+      (run p n es).stateAt p (run p n es).head = .ok s ∧
+      utxoValue (run p n es).outs s = (rest.length + 1) * p.reward ∧
+      (g.h = 0 → utxoValue (run p n es).outs s =
+        ((run p n es).heightOf (run p n es).head + 1) * p.reward) := by
+  obtain ⟨rest, s, H, hst⟩ := head_path_after_run p n es hf hreg g hg
+  have hdf := run_defs p n es
+  have hval : utxoValue n.outs s = (rest.length + 1) * p.reward :=
+    state_equation p n.outs g rest s hgo hgv H.replay (fun b hb => (H.valid b hb).1)
+  refine ⟨rest, s, by rw [path_congr hdf.1]; exact H.path, hst, by rw [hdf.2]; exact hval, ?_⟩
+  intro hg0
+  rw [hdf.2, hval, heightOf_congr hdf.1, H.heightOf_eq, hg0]
+  simp
+
+/-- … and on every fork: the same equation holds for the state of **every stored block** (the
+running sums are per block, derived from its own path), not only for the head. -/
+theorem stored_state_equation (p : Params) (n : Node) (es : List Event) (hf : Fresh n)
+    (hreg : Registered n es) (g : Blk) (hg : n.blk 0 = some g) (hgo : (g.outs.map (·.1)).Nodup)
+    (hgv : sumVals n.outs (g.outs.map (·.1)) = p.reward) (id : Nat)
+    (hs : id ∈ (run p n es).stored) :
+    ∃ rest s, n.path id = some (g :: rest) ∧ n.stateAt p id = .ok s ∧
+      utxoValue n.outs s = (rest.length + 1) * p.reward ∧ (s.utxo.map (·.1)).Nodup := by
+  have hi := run_preserved (preserved_inv p) n es hreg (hf.inv p)
+  have hdf := run_defs p n es
+  obtain ⟨rest, s, H⟩ := vop_headPath p n g hg (hf.genesis g hg)
+    ((VOP_congr hdf.2 hdf.1 p id).mp (hi.2.valid id hs))
+  exact ⟨rest, s, H.path, H.state,
+    state_equation p n.outs g rest s hgo hgv H.replay (fun b hb => (H.valid b hb).1),
+    unspent_distinct p n.outs g rest s hgo H.replay (fun b hb => (H.valid b hb).1)⟩
+
+/-- **Signature, range-proof and kernel-sum faults** (`body:` / `ksum:` tags: a swapped proof or
+signature, an amount / fee / offset changed, a kernel dropped, duplicated or foreign — decided by
+the real code, carried as tags): refused by every node in every state, nothing changes. -/
+theorem crypto_body_fault_refused (p : Params) (n : Node) (b : Blk)
+    (h : hasTag b "body:" ≠ none ∨ hasTag b "ksum:" ≠ none) : Refused p n b := by
+  apply refused_of_body_fault
+  intro hv
+  obtain ⟨t1, _, _, _, _, _, _, t2⟩ := (validateBody_none_iff p n.outs b _).mp hv
+  rcases h with h | h
+  · exact h t1
+  · exact h t2
+
+/-- **Block-sums fault** (`sums:` tag: `verify_block_sums` against the parent's running sums fails
+at the blinding level): refused by every node in every state, nothing changes. -/
+theorem block_sums_fault_refused (p : Params) (n : Node) (b : Blk) (h : hasTag b "sums:" ≠ none) :
+    Refused p n b := by
+  apply refused_of_state_fault
+  intro par sPar _ _ hn
+  exact h ((stateChecks_none_iff p sPar b).mp hn).2.2.2.1
+
+/-- **Header-level fault** (`hdr:` tag: PoW, difficulty, `prev_root`, total kernel offset …) on a
+block that is not yet known, for any node reached by a history: refused, node entirely unchanged. -/
+theorem header_crypto_fault_refused (p : Params) (n : Node) (b : Blk) (hb : n.blk b.id = some b)
+    (hi : StoreInv p n) (hk : ¬ KnownFull n b) (h : hasTag b "hdr:" ≠ none) :
+    Refused p n b ∧ (deliverBlock p n b).1 = n := by
+  apply refused_of_header_fault p n b hb hi hk
+  intro hv
+  obtain ⟨⟨_, _, _, _, _, _, _, ht⟩, _⟩ := (validateHeader_none_iff p n b).mp hv
+  exact h ht
+
+/-- **Forged coinbase value** (claim off by any amount, with or without a compensating kernel) and
+**unbalanced body**: refused by every node in every state. -/
+theorem forged_coinbase_value_refused (p : Params) (n : Node) (b : Blk)
+    (h : sumVals n.outs ((b.outs.filter (·.2)).map (·.1)) ≠ p.reward + b.fees ∨
+      sumVals n.outs (b.outs.map (·.1)) ≠ sumVals n.outs b.ins + p.reward) : Refused p n b := by
+  apply refused_of_body_fault
+  rcases h with h | h
+  · exact forged_coinbase_rejected p n.outs b _ h
+  · exact unbalanced_rejected p n.outs b _ h
+
+/-- **Missing coinbase flag**: a block none of whose outputs is flagged coinbase claims nothing —
+refused whenever the subsidy is positive. -/
+theorem missing_coinbase_flag_refused (p : Params) (n : Node) (b : Blk) (hpos : 0 < p.reward)
+    (h : b.outs.filter (·.2) = []) : Refused p n b := by
+  apply forged_coinbase_value_refused
+  left
+  rw [h]
+  simp only [List.map_nil, sumVals, List.foldl_nil]
+  omega
+
+/-- **Forged coinbase flag / a second coinbase pair**: the flagged outputs are a list that already
+claims exactly subsidy plus fees, plus one more flagged output of positive value — refused. -/
+theorem forged_coinbase_flag_refused (p : Params) (n : Node) (b : Blk) (l : List Nat) (o : Nat)
+    (hfl : (b.outs.filter (·.2)).map (·.1) = l ++ [o])
+    (hl : sumVals n.outs l = p.reward + b.fees) (ho : 0 < valOf n.outs o) : Refused p n b := by
+  apply forged_coinbase_value_refused
+  left
+  rw [hfl, sumVals_eq_sum, List.map_append, List.sum_append, ← sumVals_eq_sum, hl]
+  simp only [List.map_cons, List.map_nil, List.sum_cons, List.sum_nil]
+  omega
+
+/-- **Coinbase output without a coinbase kernel**: some output is flagged coinbase but no kernel
+is — refused (`verify_coinbase` sums the coinbase kernels' excesses). -/
+theorem coinbase_output_without_kernel_refused (p : Params) (n : Node) (b : Blk)
+    (hk : (b.kers.filter (· == .cb)).length = 0) (ho : b.outs.any (·.2) = true) :
+    Refused p n b := by
+  apply refused_of_body_fault
+  intro hv
+  have hcm := (validateBody_none p n.outs b _ hv).2.2.2.1
+  unfold coinbaseMismatch at hcm
+  simp [hk, ho] at hcm
+
 /-! ## non-vacuity: the hypotheses hold on the concrete tree of `Lemmas/ChainExamples.lean`
 (0 ── 1 ── 3 ── 4, sibling 2 of 1, invalid child 9 of 1; 3 spends the genesis output 100 and
 4 re-creates that commitment) -/
@@ -95,4 +240,43 @@ example : utxoValue Ex.outs
       rcases hb with rfl | rfl | rfl <;> decide)
 
 end Examples
+
+/-! ### the history-level theorems on the tree of `Lemmas/ChainMoreExamples.lean` (a1 becomes the
+head, b1 takes over: a reorganisation) -/
+section HistoryExamples
+open GV.Chain.Ex2
+
+-- `head_state_equation`: hypotheses hold after the reorganisation; two blocks, two subsidies
+example : ∃ rest s, NB.path NB.head = some (Ex2.G :: rest) ∧ NB.stateAt Ex2.P NB.head = .ok s ∧
+    utxoValue NB.outs s = (rest.length + 1) * Ex2.P.reward ∧
+    (Ex2.G.h = 0 → utxoValue NB.outs s = (NB.heightOf NB.head + 1) * Ex2.P.reward) :=
+  head_state_equation Ex2.P Ex2.N esReorg Ex2.fresh_N reg_reorg Ex2.G rfl (by decide) (by decide)
+example : utxoValue NB.outs { utxo := [(100, 0, false), (121, 1, true)], nrd := [], height := 1 } = 120 := by
+  decide
+
+-- `accepted_blocks_balance` / `stored_state_equation`: a1 — on the losing fork — still balances
+example : sumVals Ex2.N.outs ((Ex2.A1.outs.filter (·.2)).map (·.1)) = Ex2.P.reward + Ex2.A1.fees ∧
+    sumVals Ex2.N.outs (Ex2.A1.outs.map (·.1)) = sumVals Ex2.N.outs Ex2.A1.ins + Ex2.P.reward ∧
+    hasTag Ex2.A1 "body:" = none ∧ hasTag Ex2.A1 "ksum:" = none ∧
+    (Ex2.A1.outs.any (·.2) = true → (Ex2.A1.kers.filter (· == .cb)).length ≠ 0) :=
+  accepted_blocks_balance Ex2.P Ex2.N esReorg Ex2.fresh_N reg_reorg Ex2.A1 rfl (by decide) (by decide)
+example : ∃ rest s, Ex2.N.path 1 = some (Ex2.G :: rest) ∧ Ex2.N.stateAt Ex2.P 1 = .ok s ∧
+    utxoValue Ex2.N.outs s = (rest.length + 1) * Ex2.P.reward ∧ (s.utxo.map (·.1)).Nodup :=
+  stored_state_equation Ex2.P Ex2.N esReorg Ex2.fresh_N reg_reorg Ex2.G rfl (by decide) (by decide)
+    1 (by decide)
+
+-- `block_sums_fault_refused`: b5 carries a `sums:` tag
+example : Refused Ex2.P NB Ex2.B5 :=
+  block_sums_fault_refused Ex2.P NB Ex2.B5 (by simp [hasTag, Ex2.B5])
+
+-- `missing_coinbase_flag_refused` / `forged_coinbase_flag_refused` /
+-- `coinbase_output_without_kernel_refused` on variants of b1's child
+example : Refused Ex2.P NB { Ex2.B4 with outs := [(135, false)] } :=
+  missing_coinbase_flag_refused Ex2.P NB _ (by decide) rfl
+example : Refused Ex2.P NB { Ex2.B4 with outs := [(135, true), (133, true)] } :=
+  forged_coinbase_flag_refused Ex2.P NB _ [135] 133 rfl (by decide) (by decide)
+example : Refused Ex2.P NB { Ex2.B4 with outs := [(135, true)], kers := [.plain 0] } :=
+  coinbase_output_without_kernel_refused Ex2.P NB _ (by decide) (by decide)
+
+end HistoryExamples
 end GV.Props.C01
